@@ -2,6 +2,7 @@ package sim
 
 import (
 	"fmt"
+	ecrypto "github.com/ethereum/go-ethereum/crypto"
 	"math/big"
 	"sort"
 
@@ -9,6 +10,7 @@ import (
 	"github.com/zenon-network/go-zenon/common/types"
 	"github.com/zenon-network/go-zenon/vm/constants"
 	"github.com/zenon-network/go-zenon/vm/embedded/definition"
+	"github.com/zenon-network/go-zenon/vm/embedded/implementation"
 )
 
 const (
@@ -31,6 +33,15 @@ type Spec struct {
 	// ActiveSporks declares the three implemented sporks as activated with this enforcement
 	// height (0 = not declared).
 	ActiveSporks uint64
+	// Swap: assets and pillar slots of the legacy network, claimable with a secp256k1 key (SwapKey(i))
+	Swap []SwapSpec
+}
+
+// SwapSpec is one legacy key: what it can retrieve (units of Zexp) and how many legacy pillars it may register.
+type SwapSpec struct {
+	Key      int
+	Znn, Qsr int64
+	Pillars  uint8
 }
 
 type PillarSpec struct {
@@ -149,6 +160,14 @@ func (s *Spec) Config() *genesis.GenesisConfig {
 		add(addr, types.ZnnTokenStandard, z(p.Znn))
 		add(addr, types.QsrTokenStandard, z(p.Qsr))
 	}
+	for _, sw := range s.Swap {
+		_, pub := SwapKey(sw.Key)
+		kih := implementation.PubKeyToKeyIdHash(pub)
+		cfg.SwapConfig.Entries = append(cfg.SwapConfig.Entries, &definition.SwapAssets{KeyIdHash: kih, Znn: z(sw.Znn), Qsr: z(sw.Qsr)})
+		if sw.Pillars > 0 {
+			cfg.PillarConfig.LegacyEntries = append(cfg.PillarConfig.LegacyEntries, &definition.LegacyPillarEntry{KeyIdHash: kih, PillarCount: sw.Pillars})
+		}
+	}
 	for _, d := range s.Delegs {
 		cfg.PillarConfig.Delegations = append(cfg.PillarConfig.Delegations, &definition.DelegationInfo{Name: d.Pillar, Backer: d.Backer})
 	}
@@ -202,4 +221,14 @@ func (s *Spec) Config() *genesis.GenesisConfig {
 		cfg.GenesisBlocks.Blocks = append(cfg.GenesisBlocks.Blocks, &genesis.GenesisBlockConfig{Address: a, BalanceList: bal[a]})
 	}
 	return cfg
+}
+
+// SwapKey returns the i-th legacy (secp256k1) key of the harness: private key bytes and the 65-byte public key.
+func SwapKey(i int) (prv, pub []byte) {
+	prv = []byte(fmt.Sprintf("verif-legacy-swap-key-%09d!", i))
+	k, err := ecrypto.ToECDSA(prv)
+	if err != nil {
+		panic(err)
+	}
+	return prv, ecrypto.FromECDSAPub(&k.PublicKey)
 }
